@@ -177,6 +177,24 @@ def strip_id(c):
     return {k: v for k, v in c.items() if k != "id"}
 
 
+def par_close(p, q, rel=1e-12):
+    """model parameter (exact) vs implementation parameter (float64 arithmetic)"""
+    if set(p) != set(q):
+        return False
+    if "m" in p and p["m"] != q["m"]:
+        return False
+    key = "n" if "n" in p else "k"
+    a, b = Fraction(*p[key]), Fraction(*q[key])
+    return abs(a - b) <= rel * max(1, abs(a))
+
+
+def cmd_close(m, r):
+    """new commands: same structure, parameters equal up to float64 rounding of sums / products"""
+    sm, sr = strip_id(m), strip_id(r)
+    pm, pr = sm.pop("pars"), sr.pop("pars")
+    return sm == sr and len(pm) == len(pr) and all(par_close(x, y) for x, y in zip(pm, pr))
+
+
 # ------------------------------------------------------------------ generators
 
 DY = [k / 8 for k in range(-6, 7) if k != 0]
